@@ -6,31 +6,48 @@ MANIFEST = dict(
          'docs/evolve_spec.rst (Model/Rt/Compat.lean: a one-to-one correspondence rho between the class references of an older '
          'spec A and a newer spec B; subB = every related pair of classes differs only by listed compatible changes - added '
          'optional / defaulted fields, tags added to open unions, Void tags given a type, subtypes added under catch-all roots, '
-         'renamings; aliases are invisible in validator trees). Proved for ALL environments, types, nestings and documents: '
-         '(forward_compat_msg) every document B\'s decoder accepts - in particular everything B\'s encoder writes - is accepted by '
-         'A\'s lenient decoder as the A-view of the decoded value (unknown fields dropped, unknown tags read as the catch-all, '
-         'unknown subtypes read as the base struct, payloads of tags that are Void in A ignored); (strict_rejects_iff) for '
-         'documents without repeated keys A\'s strict decoder fails, and then by the validation error only, exactly when the '
-         'document contains something A does not know (knownDoc); (backward_compat_msg) every document in A\'s encoder form that A\'s decoder accepts and that uses '
-         'no Void-to-required tag is accepted by B\'s decoder in both modes as the same value with the new fields unset '
-         '(reads give None / the declared default). Wire-form corollaries (*_partial) take the sender\'s own round trip (C04/C05) '
-         'as a hypothesis. Tied to the code by pairs (A, B = A + 1-4 random compatible edits, also at sites reached only through '
-         'nesting) compiled, generated and imported by the real toolchain: the hypotheses (envWF, inherited descriptors, '
-         'compatEnv, tySub) are evaluated by the compiled model on every pair, and real decode_A(encode_B(v)), '
-         'decode_B(encode_A(v)) in both modes are compared with the model\'s decode / view / lift / mentionsUnknown / knownDoc / '
-         'tightDoc / nvrDoc, and judged by an independent Python reading of the property (A-view, lift, unknown content of '
-         'the message, read-back of every field including defaults).',
+         'renamings; aliases are invisible in validator trees). Proved for ALL environments, types, nestings and values, in the '
+         'wire form of the property: (forward_compat) for every valid value v of B, A\'s lenient decoder accepts the message B '
+         'writes for v and builds the A-view of the value B itself reads back (equal to v under ==; forward_compat_eq) - unknown '
+         'fields dropped, unknown tags read as the catch-all, unknown subtypes read as the base struct, payloads of tags that are '
+         'Void in A ignored; (strict_accepts_known_wire, strict_rejects_iff) A\'s strict decoder accepts that message when it '
+         'contains nothing A does not know, and for documents without repeated keys fails, by the validation error only, exactly '
+         'when it does (knownDoc); (backward_compat) for every valid value v of A that uses no tag that is Void in A and '
+         'non-nullable in B (noVoidToRequired), B\'s decoder accepts, in both modes, the message A writes for v and builds the '
+         'same value with the new fields unset (reads give None / the declared default; backward_compat_eq). They rest on the '
+         'message-level theorems forward_compat_msg / backward_compat_msg (every document the other decoder accepts, no '
+         'hypothesis on values), on C04\'s round-trip theorem for the sender, and on wire_tight / wire_nvr (the sender\'s own '
+         'message is in encoder form, and the message-level nvrDoc of it equals the value-level noVoidToRequired: an induction '
+         'over the wire form). void_to_required_witness shows the noVoidToRequired hypothesis is necessary. '
+         'Tied to the code by pairs (A, B = A + 1-4 random compatible edits, also at sites reached only through '
+         'nesting) compiled, generated and imported by the real toolchain: every decidable hypothesis (envWF, inherited '
+         'descriptors, compatEnv, tySub; envRT, valid, normal, valWF, ambiguousEmpty, noVoidToRequired) is evaluated by the '
+         'compiled model on every pair / value and the share of cases inside the theorems\' domain is recorded; inside the '
+         'domain the REAL decode_A(encode_B(v)) (lenient) and decode_B(encode_A(v)) (both modes) are compared with the theorems\' '
+         'right-hand sides view(canon v) / lift(canon v) as the model evaluates them (compat.theorem.forward / .backward); on all '
+         'cases real decoding in both modes is compared with the model\'s decode / view / lift / mentionsUnknown / knownDoc / '
+         'tightDoc / nvrDoc / ambiguousEmpty, and judged by an independent Python reading of the property (A-view, lift, unknown '
+         'content of the message, read-back of every field including defaults).',
     note='Trusted: Lean kernel; correspondence generators (pair generator + value generators); the independent oracle of the '
-         'harness. Not proved (observed by testing on every case): the step from a value to its wire form (round trip of the '
-         'sender, C04; encoder form of the sender\'s output; value-level mentionsUnknown / noVoidToRequired = message-level '
-         'knownDoc / nvrDoc of the encoding). sub_refl and sub_trans are proved (multi-edit pairs are additionally checked by evaluating '
-         'compatEnv on the whole pair). strict_rejects_iff uses C06\'s decode_no_crash. Alias edits are generated only at sites '
-         'where the generated bb.Attribute(nullable=, user_defined=) flags do not change (union tag types, route types, '
-         'below List / Map, non-nullable non-user field types). Values containing the documented ambiguity D7 (nullable '
-         'all-optional struct member with nothing set, C04 finding) and Void-to-required tags (not promised by the guide) are '
-         'counted, not judged.',
-    technique='Lean 4 proof (simulation between the two decoders, induction over the document) + differential correspondence '
-              'on spec pairs + direct oracle',
+         'harness. Assumed by the wire-form theorems (decidable ones evaluated on every case, see the '
+         'compat.theorem.*.domain histograms): the domain conditions of C04\'s round trip on the sender\'s side - envRT (excludes '
+         'the C04 finding "explicit default on a field whose validator has an implicit one"), valid and stored-normal value, '
+         'valWF (unique slot / key names, exact class at Struct positions, no catch-all tag, representable timestamps), not the '
+         'documented ambiguity D7 (nullable all-optional struct member with nothing set) - and ExtLaws (base64 round trip, '
+         'irreflexive float <, == reflexive on declared defaults: the last one is decidable and evaluated, the first two are '
+         'facts about CPython); for backward_compat additionally noVoidToRequired, the documented limit of "giving a Void tag a '
+         'type" (the guide does not promise that direction; witness proved). Not proved (observed by testing on every case): '
+         'that the real encoder writes `wire` (C05 proves it for the model\'s encoder); value-level mentionsUnknown = '
+         'message-level knownDoc of the encoding (so strict_rejects_iff stays in message form). forward_compat_partial / '
+         'backward_compat_partial are the earlier forms with the sender\'s round trip as a hypothesis; they are kept (no '
+         'hypothesis on the value) and are subsumed on C04\'s domain. sub_refl and sub_trans are proved (multi-edit pairs are additionally '
+         'checked by evaluating compatEnv on the whole pair). strict_rejects_iff uses C06\'s decode_no_crash. Alias edits are '
+         'generated only at sites where the generated bb.Attribute(nullable=, user_defined=) flags do not change (union tag '
+         'types, route types, below List / Map, non-nullable non-user field types). Values outside the domain (D7, '
+         'Void-to-required tags, values not in stored form) are counted, not judged against the theorems.',
+    technique='Lean 4 proof (simulation between the two decoders, induction over the document; induction over the wire form of '
+              'good values; composition with C04\'s round trip) + differential correspondence on spec pairs, including the '
+              'theorems\' conclusions against the real decoders inside their domain + direct oracle',
     design='5 C07')
 
 
@@ -40,7 +57,9 @@ def run(ck):
     ck.assumptions.extend([
         'class references of the two specs correspond one to one (rho); every pair is a listed compatible change (compatEnv)',
         'both environments: envWF (accepted specs), envWFX / envWFU (subclasses inherit their ancestors\' attribute descriptors)',
-        'wire-form corollaries: the sender reads its own message back (C04 round trip), caller without special permissions',
+        'wire-form theorems (forward_compat, backward_compat): the domain of C04\'s round trip on the sender\'s side (envRT, valid, '
+        'stored-normal, valWF, not the documented ambiguity D7, ExtLaws), caller without special permissions',
+        'backward_compat: noVoidToRequired (a tag that is Void in A and non-nullable in B is the documented limit, not promised)',
     ])
     return ck.finish(rule=compat.RULE)
 
